@@ -2,7 +2,7 @@
    Owning types modelled: static_vector (non-trivial storage) and inplace_vector, for element types
    with (fl = true) and without (fl = false) move operations, every capacity, every history of the
    operations of C03.Model.op on two objects. *)
-From Tetl Require Import Lib.Base C03.Trace C03.Model C03.Spec C03.ProofsTrace C03.ProofsRun C03.ProofsHist C03.ProofsVecSelf.
+From Tetl Require Import Lib.Base C03.Trace C03.Model C03.Spec C03.ProofsTrace C03.ProofsRun C03.ProofsHist C03.ProofsVecSelf C03.ProofsVecDomain.
 
 (** * the automaton *)
 (* a well-formed trace that leaves nothing alive: the history of EVERY location is
@@ -68,6 +68,16 @@ Theorem C03_vec_self_identity : forall (fl : bool) (cap : nat) (iv : bool) (ops 
   self_checks fl cap iv (0, 0) [] ops = repeat true (count_self ops).
 Proof. exact vec_self_identity. Qed.
 Print Assumptions C03_vec_self_identity.
+
+(* the hypothesis, from the specification: for histories of the operations whose outcome is determined
+   by the sizes of the two objects (everything except erase_if / erase by value and the static_set /
+   flat_set operations) the model completes whenever the documented preconditions, decided on lists
+   as for std::vector with the capacity bound, hold at every call *)
+Theorem C03_vec_domain : forall (fl : bool) (cap : nat) (iv : bool) (ops : list op),
+  forallb (size_op iv) ops = true -> spec_verdict fl cap ops <> None ->
+  history_completed fl cap iv ops = true.
+Proof. exact vec_domain. Qed.
+Print Assumptions C03_vec_domain.
 
 (* the hypothesis is satisfiable by a history that copies, moves, swaps, inserts and erases *)
 Example C03_nonvacuous :
